@@ -137,6 +137,8 @@ class E2EStream(Stream):
 
     def gen(self, rng, tier):
         yield from boundary_e2e()
+        for _ in range(10 if tier == "quick" else 120):     # long runs: few of them
+            yield FB.gen_long_recovery_case(rng)
         for _ in range(self.n_quick if tier == "quick" else self.n_thorough):
             c = FB.gen_e2e_case(rng)
             if c["picks"] is None and closed_unaligned(c):
@@ -176,6 +178,8 @@ class E2EStream(Stream):
             lag = (F[0][0] - inval[0]) // case["d"]
             out.append(f"fallback_lag={'<0' if lag < 0 else '0' if lag == 0 else '1' if lag == 1 else '2+'}")
         out.append("set_order_real" if case.get("picks") is None else "set_order_prescribed")
+        if case.get("kind") == "e2e_long_recovery":
+            out.append("fail_recover>=60_fail_again")
         return out
 
     def oracle(self, case, obs):
